@@ -204,6 +204,10 @@ func WorkerMain(t *testing.T, worldName string, world World) {
 			break
 		}
 		seed := RunSeed(base, prop, i)
+		if out != "" {
+			// progress marker: lets the runner find the run that crashed the process
+			os.WriteFile(out+".cur", []byte(fmt.Sprintf("%d %d", i, seed)), 0o644)
+		}
 		if trace {
 			fmt.Printf("RUN %d seed %d\n", i, seed)
 		}
@@ -279,6 +283,13 @@ func WorkerMain(t *testing.T, worldName string, world World) {
 			debug.SetMemoryLimit(3 << 30)
 			sig := res.Violation.Signature()
 			full := append([]uint32(nil), c.Trace...)
+			if out != "" {
+				// in case minimising crashes the process: the runner falls back to the unminimised failure
+				pre := &Failure{RunIndex: i, Seed: seed, Violation: res.Violation, FullChoices: full, MinChoices: full, LogHash: res.LogHash, Log: res.Log, Desc: res.Desc}
+				if b, err := json.Marshal(pre); err == nil {
+					os.WriteFile(out+".found", b, 0o644)
+				}
+			}
 			tries := envInt("VERIF_REPRO_TRIES", 1)
 			runOnce := func(cand []uint32, full bool) *RunResult {
 				rc := ReplayChoices(cand)
